@@ -5,3 +5,4 @@ import RaftWal.Props.C08
 #print axioms RaftWal.C08.u64_roundtrip
 #print axioms RaftWal.C08.getUint64_unset_zero
 #print axioms RaftWal.C08.stable_isolated
+#print axioms RaftWal.C08.stable_any_crash
